@@ -159,7 +159,16 @@ func HarnessC12_badcount() {
 		vAssume(false)
 	}
 	var doc any
-	switch ndChoice(3) {
+	switch ndChoice(5) {
+	case 3:
+		// named counts: the bad one after (in name order) a good one of
+		// any value, zero included
+		n, _ := c12Count(2)
+		doc = map[string]any{"$repeat": map[string]any{"a": n, "b": v}, "p": 1}
+	case 4:
+		n, _ := c12Count(2)
+		m, _ := c12Count(1)
+		doc = map[string]any{"$repeat": map[string]any{"a": m, "b": v, "c": n}, "p": 1}
 	case 0:
 		doc = map[string]any{"$repeat": v, "a": 1}
 	case 1:
